@@ -39,9 +39,12 @@ MANIFEST = {
                 "generated definition: the equality fails or the translator refuses (broken obligation; the check then searches for a "
                 "failing input). DESTRUCTORS (PropsOrder.lean): dtor_listener_order_irrelevant and dtor_emitter_order_irrelevant - "
                 "visiting the Map keys in any order gives the same state, for every state; destructor_invokes_no_slot. ADDRESS REUSE "
-                "(PropsReuse.lean): reuse_listener_refines_spec - the model in which a re-created listener is constructed at the id "
-                "(address) of its destroyed predecessor refines the specification with the same reuse, for all programs (log, no use "
-                "of freed memory, audit, clean bookkeeping); stale_receiver_never_read - no loop of the model reads receiver/object of "
+                "(PropsReuse.lean, PropsReuse2.lean): reuse_listener_refines - the model in which a re-created listener is constructed "
+                "at the id (address) of its destroyed predecessor writes the same log as the model in which every new object gets a "
+                "new id, never uses a freed object, and has the same live connections per signal when receivers are read as the "
+                "variables holding them - for all programs and histories that name the listener variables the harness has (< nl); "
+                "reuse_listener_refines_spec (all programs): it refines the specification with the same reuse (log, audit, clean "
+                "bookkeeping); stale_receiver_never_read - no loop of the model reads receiver/object of "
                 "an entry marked disconnected. The model is also tied to the current Callback.hpp/.cpp on every "
                 "run by executing identical op lines on both (every small program up to renaming + structured cross-emitter programs + "
                 "random programs over all nine arity overloads, heap objects under ASan/UBSan and a second pass with objects "
@@ -66,10 +69,11 @@ MANIFEST = {
                 "== iff same member iff equal bytes, < a strict total order; assumed beyond that: non-virtual members, no "
                 "identical-code folding). One number stands for the argument tuple (the harness passes v..v+g-1 and checks the tuple "
                 "in the slot); reference parameters are modelled as one cell per emission (signal 9: `int&`; `const int&` and `int*` "
-                "only by the fixed `refargs` line). Ids: in `exec` a re-created object gets a new id; OPEN (PropsReuse.lean): the "
-                "specification with vs without listener reuse (so reuse_listener_refines_spec is about the specification WITH reuse), "
-                "and emitter address reuse (the simulation relation is not kept while invalidated frames of the old emitter are on "
-                "the stack) - both kinds of reuse are tested on every line (execR in the driver, `reuse` mode of the harness). "
+                "only by the fixed `refargs` line). Ids: in `exec` a re-created object gets a new id; listener address reuse is proved unobservable "
+                "(reuse_listener_refines; restricted to listener variables < nl because `exec` lets out-of-range variables alias ids "
+                "handed out later); OPEN (PropsReuse.lean): emitter address reuse (the simulation relation is not kept while "
+                "invalidated frames of the old emitter are on the stack; the specification identifies an emission by (emitter, "
+                "signal)) - both kinds of reuse are tested on every line (execR in the driver, `reuse` mode of the harness). "
                 "The audit of no_dangling is decided classically (the audited model is not executable; it is a proof device). "
                 "Emitter/Listener cannot be copied (compiler probe on every run). Single-threaded use. Slot bodies are finite scripts "
                 "indexed by (listener, slot, invocation number). Accesses to a List item after `List::remove` are invisible to ASan "
@@ -79,7 +83,7 @@ MANIFEST = {
         "design_ref": "DESIGN.md 3/C12",
     }
 }
-PROPS = ["Nstd.Callback.Props", "Nstd.Callback.PropsTie", "Nstd.Callback.PropsTieRun", "Nstd.Callback.PropsOrder", "Nstd.Callback.PropsReuse"]
+PROPS = ["Nstd.Callback.Props", "Nstd.Callback.PropsTie", "Nstd.Callback.PropsTieRun", "Nstd.Callback.PropsOrder", "Nstd.Callback.PropsReuse", "Nstd.Callback.PropsReuse2"]
 DRIVER = "drv_callback"
 LEAN_TARGETS = PROPS + [DRIVER]
 GEN_BODY = C.LEAN / "Nstd/Generated/CallbackBody.lean"
@@ -906,7 +910,7 @@ def copy_rejected(ctx):
 def check(ctx):
     ctx.assumptions += [
         "single-threaded use of Callback (the class has no synchronisation)",
-        "a new object is a new id in the model `exec` even when it gets the address of a destroyed object; listener address reuse is proved against the specification with reuse (reuse_listener_refines_spec), emitter address reuse is only tested (execR in the driver on every line; `reuse` lines of the harness: a re-created object has exactly the address of its predecessor)",
+        "a new object is a new id in the model `exec` even when it gets the address of a destroyed object; listener address reuse is proved unobservable (reuse_listener_refines), emitter address reuse is only tested (execR in the driver on every line; `reuse` lines of the harness: a re-created object has exactly the address of its predecessor)",
         "member-function pointers of distinct signals/slots are distinct, of equal size, and == agrees with memcmp (checked by the `mfp` line on the harness's pointers; non-virtual members, no identical-code folding)",
         "the translator's reading of the C++ subset and the container operations of lean/Nstd/Callback/Heap.lean (Map/List themselves are not translated)",
         "slot bodies are deterministic scripts of connect/disconnect/emit/delete actions; allocation never fails",
